@@ -111,6 +111,7 @@ NormBetween(s) ==
   CASE s.k = "bool"    -> [s EXCEPT !.args = [i \in DOMAIN s.args |-> NormBetween(s.args[i])]]
     [] s.k = "between" -> [k |-> "bool", op |-> "AND", args |-> << [k |-> "cmp", op |-> ">=", l |-> s.x, r |-> s.lo],
                                                                      [k |-> "cmp", op |-> "<=", l |-> s.x, r |-> s.hi] >>]
+    [] s.k = "cmp"     -> [s EXCEPT !.l = NormBetween(s.l), !.r = NormBetween(s.r)]      \* f:<(g:[1 TO 5]) - a range as an operand
     [] OTHER -> s
 \* two ASTs are the same predicate text-for-text up to the spelling of numbers (1.50 vs 1.5) and number kind
 RECURSIVE SameAst(_,_)
